@@ -607,6 +607,24 @@ impl GlobalInferenceCtx<'_> {
     // `get_const` determines whether or not `const_data` can be called
     fn get_const(&self, expr: Idx<Expr>) -> ExprIsConst {
         let mut to_check = vec![(self.loc, expr)];
+        // `parents[i]` is the entry of `to_check` which pushed entry `i`
+        let mut parents: Vec<Option<usize>> = vec![None];
+
+        // a global which (transitively) refers to itself never reaches a literal, so it isn't
+        // const. without this check the loop below would never end on finished cyclic globals.
+        let is_cyclic = |to_check: &[(ConcreteLoc, Idx<Expr>)],
+                         parents: &[Option<usize>],
+                         from: usize,
+                         new: (ConcreteLoc, Idx<Expr>)| {
+            let mut curr = Some(from);
+            while let Some(i) = curr {
+                if to_check[i] == new {
+                    return true;
+                }
+                curr = parents[i];
+            }
+            false
+        };
 
         let mut idx = 0;
         while let Some((loc, expr)) = to_check.get(idx).copied() {
@@ -624,6 +642,7 @@ impl GlobalInferenceCtx<'_> {
                 | Expr::BoolLiteral(_) => ExprIsConst::Const,
                 Expr::ArrayLiteral { items, .. } if self.tys[loc][expr].is_array() => {
                     to_check.extend(items.iter().map(|e| (loc, *e)));
+                    parents.resize(to_check.len(), Some(idx));
                     ExprIsConst::Const
                 }
                 Expr::LocalGlobal(global) => {
@@ -644,10 +663,15 @@ impl GlobalInferenceCtx<'_> {
                             return ExprIsConst::Unknown;
                         }
 
-                        to_check.push((
+                        let new = (
                             new_loc.wrap(),
                             self.world_bodies.global_body(new_loc.to_naive()),
-                        ));
+                        );
+                        if is_cyclic(&to_check, &parents, idx, new) {
+                            return ExprIsConst::Runtime;
+                        }
+                        to_check.push(new);
+                        parents.push(Some(idx));
                         ExprIsConst::Const
                     }
                 }
@@ -656,6 +680,7 @@ impl GlobalInferenceCtx<'_> {
 
                     if let Some(value) = local_def.value {
                         to_check.push((loc, value));
+                        parents.push(Some(idx));
                     }
 
                     if local_def.mutable {
@@ -675,6 +700,7 @@ impl GlobalInferenceCtx<'_> {
 
                     if let Ty::File(file) = self.tys[old_tfqn][*previous].as_ref() {
                         to_check.push((old_tfqn, *previous));
+                        parents.push(Some(idx));
 
                         let new_loc = Fqn {
                             file: *file,
@@ -695,10 +721,15 @@ impl GlobalInferenceCtx<'_> {
                                 return ExprIsConst::Unknown;
                             }
 
-                            to_check.push((
+                            let new = (
                                 new_loc.wrap(),
                                 self.world_bodies.global_body(new_loc.to_naive()),
-                            ));
+                            );
+                            if is_cyclic(&to_check, &parents, idx, new) {
+                                return ExprIsConst::Runtime;
+                            }
+                            to_check.push(new);
+                            parents.push(Some(idx));
                             ExprIsConst::Const
                         }
                     } else {
